@@ -3,6 +3,8 @@
 open Model
 type string = Stdlib.String.t
 
+exception Case_timeout
+
 let rec pos_of_int (i : int) : positive =
   if i = 1 then XH
   else if i land 1 = 0 then XO (pos_of_int (i lsr 1))
